@@ -40,7 +40,7 @@ func checkC06(r *Run) {
 	r.Rule("R8", "'!' negates the uniform truthiness predicate of its operand", 1)
 	prefixBangRuleSSA(r, "R8")
 	c06Precedence(r)
-	c06Pratt(r)
+	c06PrattSSA(r)
 	c06TablesSSA(r)
 	c06ShortCircuitSSA(r)
 	c06LexerLiterals(r)
@@ -126,33 +126,19 @@ func c06Precedence(r *Run) {
 			return true
 		})
 	}
-	// fallback level: the constant returned by the lookup helpers when the key is absent
+	// fallback level: the constant the lookups of the table yield when the key is absent (on paths)
 	lowest, lowestOK := int64(0), false
 	prefixLevel, prefixOK := int64(0), false
-	for _, f := range w.parserMethods() {
-		usesTable := false
-		inspectBody(f.Decl.Body, false, func(n ast.Node) bool {
-			if ix, ok := n.(*ast.IndexExpr); ok && objOf(info, ix.X) == tv {
-				usesTable = true
-			}
-			return true
-		})
-		if !usesTable {
-			continue
-		}
-		rets := returnsIn(f.Decl.Body)
-		if len(rets) == 0 {
-			continue
-		}
-		last := rets[len(rets)-1]
-		if len(last.Results) == 1 {
-			if v, ok := constInt(info, last.Results[0]); ok {
-				if lowestOK && v != lowest {
-					r.Bad("R1", f.Name(), "fallback "+short(w.Fset, last), w.Pos(last.Pos()), "the two precedence lookups fall back to different levels")
-				}
-				lowest, lowestOK = v, true
-				r.Ok("R1", f.Name(), "fallback level "+short(w.Fset, last.Results[0]), w.Pos(last.Pos()), "constant fallback")
-			}
+	if pmod := w.prattSSA(); pmod.why == "" {
+		vals, at, n := pmod.fallbacks()
+		switch {
+		case n == 0 || len(vals) == 0:
+		case len(vals) > 1:
+			r.Bad("R1", fn, fmt.Sprintf("fallback levels %v", vals), w.Pos(at[vals[1]]), "the precedence lookups fall back to different levels")
+			lowest, lowestOK = vals[0], true
+		default:
+			lowest, lowestOK = vals[0], true
+			r.Ok("R1", fn, fmt.Sprintf("fallback level %d", lowest), w.Pos(at[lowest]), fmt.Sprintf("the constant every lookup of the table (%d) yields for a token without level", n))
 		}
 	}
 	if !lowestOK {
